@@ -317,7 +317,7 @@ example : eval (Env.ofList [("a", .num (3/2)), ("t", .nums [0, 1/2, 1, 2])])
       (.ite (.lt (.var "t") (.num 1)) (.var "t") (.var "a")) = .ok (.nums [0, 1/2, 3/2, 3/2]) := by
   decide +kernel
 
-/-- the witness of PF-27 is in the known class once `b, n, m, c` are numbers for sympy, and outside it before -/
+/-- the witness of PF-C12e is in the known class once `b, n, m, c` are numbers for sympy, and outside it before -/
 example :
     let e := Expr.max (.add (.var "b") (.sum "i" (.var "n") (.var "m") (.var "b"))) (.var "c")
     InKnownClassClosedSum ["b", "n", "m", "c"] e = true ∧ InKnownClassClosedSum [] e = false := by
